@@ -357,7 +357,10 @@ type CR3Opts struct {
 	Use64    bool // allow 64-bit box headers
 	Brands   int  // further compatible brands in ftyp (cameras write two)
 	TopExtra bool // unknown/free boxes between any two top-level boxes (also right after ftyp)
-	Top64    int  // bit 0: moov, bit 1: the xpacket uuid box, bit 2: the preview uuid box carry a 64-bit size (size field 1, largesize follows)
+	// PrvwField != 0: the jpeg-size field of the PRVW header says len(Preview)+PrvwField (the box
+	// itself is sized by what it holds) and a free box follows PRVW inside the preview uuid box
+	PrvwField int
+	Top64     int // bit 0: moov, bit 1: the xpacket uuid box, bit 2: the preview uuid box carry a 64-bit size (size field 1, largesize follows)
 	Tail     int  // 0: mdat last (as cameras write it); 1: no mdat (the last metadata box ends the stream); 2: mdat before the xpacket/preview uuid boxes
 }
 
@@ -503,7 +506,11 @@ func DrawCR3(l *core.Lane, o CR3Opts) *CR3 {
 	if o.Preview != nil {
 		s := len(out)
 		c.PrevW, c.PrevH = 1+l.Intn(4000), 1+l.Intn(3000)
-		prvw := Box("PRVW", be32(0), be16(1), be16(uint16(c.PrevW)), be16(uint16(c.PrevH)), be16(1), be32(uint32(len(o.Preview))), o.Preview)
+		prvw := Box("PRVW", be32(0), be16(1), be16(uint16(c.PrevW)), be16(uint16(c.PrevH)), be16(1), be32(uint32(len(o.Preview)+o.PrvwField)), o.Preview)
+		prvwLen := len(prvw)
+		if o.PrvwField != 0 {
+			prvw = append(prvw, Box("free", ScreenTIFF(l.Sub().Bytes(64)))...)
+		}
 		ph := 8
 		if o.Top64&4 != 0 {
 			ph = 16
@@ -515,7 +522,7 @@ func DrawCR3(l *core.Lane, o CR3Opts) *CR3 {
 		c.PrevOff = s + ph + 16 + 8 + 24
 		c.Top = append(c.Top, Span{"uuid-prvw", s, len(out)})
 		c.PrevUUID = Span{"uuid-prvw", s, len(out)}
-		c.PRVW = Span{"PRVW", s + ph + 24, len(out)}
+		c.PRVW = Span{"PRVW", s + ph + 24, s + ph + 24 + prvwLen}
 		topExtra()
 		c.Map = append(c.Map, FieldSpan{"prvwuuid.size", s, 4}, FieldSpan{"prvw.size", s + ph + 24, 4}, FieldSpan{"prvw.jpegsize", s + ph + 24 + 20, 4})
 	}
